@@ -335,6 +335,11 @@ func (self Value) getByPath(pathes ...Path) (Value, []int) {
 					return errValue(meta.ErrRead, "GetByPath: read field length failed.", err), address
 				}
 				messageLen += Len
+				if p.Read+messageLen > len(p.Buf) {
+					return errValue(meta.ErrRead, "GetByPath: message length exceeds buffer.", nil), address
+				}
+				// searches below scan same-numbered fields until the end of the buffer: bound them to this message
+				p.Buf = p.Buf[:p.Read+messageLen]
 			}
 
 			fd := desc.Message().ByNumber(id)
@@ -359,6 +364,11 @@ func (self Value) getByPath(pathes ...Path) (Value, []int) {
 					return errValue(meta.ErrRead, "GetByPath: read field length failed.", err), address
 				}
 				messageLen += Len
+				if p.Read+messageLen > len(p.Buf) {
+					return errValue(meta.ErrRead, "GetByPath: message length exceeds buffer.", nil), address
+				}
+				// searches below scan same-numbered fields until the end of the buffer: bound them to this message
+				p.Buf = p.Buf[:p.Read+messageLen]
 			}
 
 			fd := desc.Message().ByName(name)
